@@ -185,10 +185,9 @@ public:
     return args[2];
   }
 
-  double penalty_nvi(core_interpreter *ci) const final
-  {
-    return comparison_function_penalty(ci);
-  }
+  // No `penalty_nvi`: `comparison_function_penalty` is for the four-terms
+  // comparisons (it reads four argument indices) and this function has three
+  // arguments.
 };
 
 /// \see https://wiki.sei.cmu.edu/confluence/display/c/INT32-C.+Ensure+that+operations+on+signed+integers+do+not+result+in+overflow
